@@ -274,6 +274,16 @@ def pristine_outcomes(items):
 # Hand-written programs for constructs the grammar-directed generator produces rarely or never, plus the inputs of every
 # defect that was repaired by a "fix:" commit (a fixed defect that returns is reported again).  (text, is_valid_C11)
 ZOO = [
+    # round 8 (first pass misses): _Atomic(type-name) over qualified pointee types, tagged struct / union definitions and forward
+    # declarations as members without declarator, function specifiers on functions declared through a typedef of function type,
+    # declarations after case labels (C99 mixed declarations), `long double _Complex` in every word order, label runs where every
+    # label has exactly one statement
+    ('_Atomic(const char *) p; _Atomic(int * const *) q; _Atomic(volatile int *) r; void f(_Atomic(const char *) a); int n = sizeof(_Atomic(const int *));', True),
+    ('struct outer { struct inner { int a; }; int b; struct fwd; union U { int x; float y; }; struct inner i; };', True),
+    ('typedef int handler_t(int); static inline handler_t on_int; _Noreturn handler_t die; typedef void vf(void); inline vf g1, g2;', True),
+    ('void f(int x){ switch (x) { case 1: x++; int y = x; y *= 2; break; case 2: ; int z; z = 1; default: { int w; } } }', True),
+    ('long double _Complex z; double long _Complex w; _Complex long double v; _Complex double long u; void f(void){ x = (long double _Complex) y; n = sizeof(long double _Complex); } long double _Complex g(double _Complex long a);', True),
+    ('void f(int a){ switch (a) { case 1: case 2: return; case 3: a++; } switch (a) { case 1: case 2: case 3: break; default: case 4: a--; } }', True),
     # round 8: static assertions with wide / prefixed messages (repaired by 6cdcb92), in every position a static assertion can take
     ('_Static_assert(1, L"x"); _Static_assert(sizeof(int) == 4, u8"m" u8"n"); void f(void){ _Static_assert(1, U"a"); if (x) _Static_assert(1, u"b"); _Static_assert(2, "p" "q"); }', True),
     ('int (g(int a)) { return a; } int (*h(int a))(int b) { return 0; }', True),
